@@ -271,14 +271,15 @@ def gen_fatal_fault(rng, tidx, spec, cfg, kinds=None):
                  'at': rng.randint(0, max(0, L)), 'exc': rng.choice(RETRYABLE)}
                 for a in range(cfg['num_download_attempts'])]
     if k == 'dstw':
+        wexc = rng.choice(['oserror', 'oserror', 'brokenpipe'])
         if spec['dst'] in ('seekable', 'nonseekable'):
-            return [{'site': 'dst', 't': tidx, 'nth': rng.randint(0, 3), 'exc': 'oserror'}]
+            return [{'site': 'dst', 't': tidx, 'nth': rng.randint(0, 3), 'exc': wexc}]
         if spec['dst'] == 'path':
             return [{'site': 'fs', 'op': 'write', 'dest': '/d/down%d' % tidx,
                      'nth': rng.randint(0, 3), 'exc': 'oserror',
                      'short': rng.random() < 0.5}]
         return [{'site': 'fs', 'op': 'write', 'path': '/d/fifo%d' % tidx,
-                 'nth': rng.randint(0, 3), 'exc': 'oserror'}]
+                 'nth': rng.randint(0, 3), 'exc': wexc}]
     if k == 'fs':
         op = rng.choice(['open', 'write', 'close', 'rename'])
         f = {'site': 'fs', 'op': op, 'dest': '/d/down%d' % tidx, 'exc': 'oserror'}
